@@ -811,7 +811,8 @@ class HttpProxyPlugin(HttpProtocolHandlerPlugin):
                 else ssl.VerifyMode.CERT_REQUIRED
             )
             self.upstream.wrap(
-                text_(self.request.host),
+                # IPv6 literals are verified without their brackets
+                text_(self.request.host).strip('[]'),
                 self.flags.ca_file,
                 as_non_blocking=True,
                 verify_mode=verify_mode,
